@@ -10,3 +10,7 @@ import MtailVerif.Props.C21
 #print axioms MtailVerif.C21.exported_bounds_eq_declared_plus_inf_partial
 #print axioms MtailVerif.C21.first_bound_nonpositive_dropped
 #print axioms MtailVerif.C21.text_observation_shape
+#print axioms MtailVerif.C21.datum_skeletons
+#print axioms MtailVerif.C21.exec_skeletons
+#print axioms MtailVerif.C21.codegenBefore_skeletons
+#print axioms MtailVerif.C21.codegenAfter_skeletons
